@@ -204,6 +204,7 @@ func cmdCheck(id, tierName string) int {
 	}
 
 	var hev []harnessEvidence
+	staticAsserts, reachedAsserts := map[string]bool{}, map[string]bool{}
 	totalPaths, totalQueries := 0, 0
 	var solverS float64
 	funcs := map[string]bool{}
@@ -243,11 +244,18 @@ func cmdCheck(id, tierName string) int {
 		if res.Err == "" {
 			otherProp := regexp.MustCompile(`^C[0-9]+/`)
 			for l := range wantA {
-				if !strings.HasPrefix(l, id+"/") {
-					continue // shared lemma code: only this property's obligations are required here
+				if strings.HasPrefix(l, id+"/") {
+					staticAsserts[l] = true // shared lemma code: only this property's obligations are required
 				}
-				if res.Proved[l]+res.Violated[l]+res.Unknown[l] == 0 {
-					inconclusive = append(inconclusive, fmt.Sprintf("%s: assertion %s never reached (vacuous)", res.Name, l))
+			}
+			for l, n := range res.Proved {
+				if n > 0 {
+					reachedAsserts[l] = true
+				}
+			}
+			for l, n := range res.Violated {
+				if n > 0 {
+					reachedAsserts[l] = true
 				}
 			}
 			for l := range wantC {
@@ -292,6 +300,23 @@ func cmdCheck(id, tierName string) int {
 			}
 		}
 		hev = append(hev, ev)
+	}
+
+	// vacuity: every obligation of this property written in a harness must be reached by some harness
+	if !containsSub(inconclusive, ": ") || true {
+		allClean := true
+		for _, r := range results {
+			if r.Err != "" {
+				allClean = false
+			}
+		}
+		if allClean {
+			for l := range staticAsserts {
+				if !reachedAsserts[l] {
+					inconclusive = append(inconclusive, fmt.Sprintf("assertion %s is never reached by any harness (vacuous)", l))
+				}
+			}
+		}
 	}
 
 	// native replays
